@@ -221,6 +221,105 @@ func VP_C13_opb() {
 	zzvp.Reach("opb")
 }
 
+// VP_C13_opb_skeleton: the PB skeletons of C14 (4-8 variables) written as OPB
+// text with solver-chosen signs, relation (>= or =) and degree shift. The
+// parsed problem must have the models of the text both as a data structure
+// (symbolic assignment) and as the solver sees it: verdict, model and model
+// count against the text's own semantics.
+func VP_C13_opb_skeleton() {
+	zzvp.IntMode(true)
+	sk := vpPBSkeletons[zzvp.Param("skfrom", 0)+zzvp.Choose("skeleton", zzvp.Param("nskel", 3))]
+	maxSym := zzvp.Param("maxsigns", 6)
+	n, cnt := 0, 0
+	var body strings.Builder
+	var cs []vpOPBConstr
+	for _, c := range sk {
+		k := vpOPBConstr{}
+		var line strings.Builder
+		for i, l := range c.lits {
+			if v := vpAbs(l); v > n {
+				n = v
+			}
+			if cnt < maxSym {
+				cnt++
+				if zzvp.Choose("flip", 2) == 1 {
+					l = -l
+				}
+			}
+			w := 1
+			if c.ws != nil {
+				w = c.ws[i]
+			}
+			k.lits = append(k.lits, l)
+			k.ws = append(k.ws, w)
+			if i > 0 {
+				line.WriteString(" ")
+			}
+			line.WriteString(vpOPBTerm(w, l, true))
+		}
+		k.eq = zzvp.Param("rel", 1) == 1 && zzvp.Choose("rel", 2) == 1
+		k.d = c.d
+		if zzvp.Param("dshift", 0) == 1 {
+			k.d += zzvp.Choose("dshift", 2)
+		}
+		rel := ">="
+		if k.eq {
+			rel = "="
+		}
+		fmt.Fprintf(&line, " %s %d ;", rel, k.d)
+		body.WriteString(line.String() + "\n")
+		cs = append(cs, k)
+	}
+	text := fmt.Sprintf("* #variable= %d #constraint= %d\n", n, len(cs)) + body.String()
+	zzvp.Obs("text", text)
+	pb, err := ParseOPB(strings.NewReader(text))
+	zzvp.Assert(err == nil, "ParseOPB returned an error on a well-formed file")
+	if err != nil {
+		return
+	}
+	holds := func(a int) bool {
+		r := true
+		for _, c := range cs {
+			rel := 0
+			if c.eq {
+				rel = 2
+			}
+			r = zzvp.And(r, vpRel(vpWSum(c.lits, c.ws, a), rel, c.d))
+		}
+		return r
+	}
+	a := zzvp.Int("a", 0, (1<<uint(n))-1)
+	zzvp.Assert(zzvp.Eqv(vpProblemHolds(pb, a), holds(a)), "the parsed problem does not have the models of the OPB text")
+	nbModels := 0
+	for b := 0; b < 1<<uint(n); b++ {
+		if holds(b) {
+			nbModels++
+		}
+	}
+	s := New(pb)
+	st := s.Solve()
+	zzvp.Assert(st == Sat || st == Unsat, "status is Sat or Unsat")
+	zzvp.Assert((st == Sat) == (nbModels > 0), "the verdict on the parsed problem is not the verdict of the text")
+	if st == Sat {
+		zzvp.Reach("sat")
+		model := s.Model()
+		ok := len(model) == n
+		for _, c := range cs {
+			rel := 0
+			if c.eq {
+				rel = 2
+			}
+			ok = ok && vpRel(vpWSumM(c.lits, c.ws, model), rel, c.d)
+		}
+		zzvp.Assert(ok, "the model of the parsed problem violates the text")
+	} else {
+		zzvp.Reach("unsat")
+	}
+	pb2, _ := ParseOPB(strings.NewReader(text))
+	zzvp.Assert(New(pb2).CountModels() == nbModels, "the parsed problem does not have as many models as the text")
+	zzvp.Reach("opb")
+}
+
 // VP_C01_cnf_dimacs: DIMACS stream (symbolic body bytes) -> ParseCNF -> New -> Solve vs truth table.
 func VP_C01_cnf_dimacs() {
 	data, orig, declared, _ := vpGenDimacs()
